@@ -584,3 +584,54 @@ func liveDraws(t *Tape, n int) (w, s []uint32) {
 	}
 	return
 }
+
+// SelftestMain: determinism self-test. The same run indices are executed in three fresh worker processes under
+// GOMAXPROCS 1, 4 and 16; every run's trace digest must be identical. A divergence is an infrastructure failure
+// (exit 2), never a VIOLATION.
+func SelftestMain(prop, tier string, seed uint64, n int) int {
+	spec := Registry[prop]
+	if spec == nil {
+		fmt.Fprintf(os.Stderr, "unknown property %q\n", prop)
+		return 2
+	}
+	var all []map[string]string
+	for _, procs := range []string{"1", "4", "16"} {
+		cmd := exec.Command(os.Args[0], "worker", "--prop", prop, "--tier", tier, "--seed", strconv.FormatUint(seed, 10),
+			"--wid", "0", "--nw", "1", "--total", strconv.Itoa(n), "--digests")
+		cmd.Env = append(os.Environ(), "GOMAXPROCS="+procs, "GORACE=halt_on_error=1 exitcode=66", "VERIF_OUT="+os.TempDir())
+		var so, se bytes.Buffer
+		cmd.Stdout, cmd.Stderr = &so, &se
+		if err := cmd.Run(); err != nil {
+			fmt.Fprintf(os.Stderr, "selftest worker (GOMAXPROCS=%s) failed: %v\n%s\n", procs, err, Trunc(se.String(), 3000))
+			return 2
+		}
+		var sum *wmsg
+		sc := bufio.NewScanner(&so)
+		sc.Buffer(make([]byte, 1<<20), 1<<28)
+		for sc.Scan() {
+			m := &wmsg{}
+			if json.Unmarshal(sc.Bytes(), m) == nil && m.T == "sum" {
+				sum = m
+			}
+		}
+		if sum == nil || len(sum.Digests) == 0 {
+			fmt.Fprintf(os.Stderr, "selftest worker (GOMAXPROCS=%s) produced no digests\n", procs)
+			return 2
+		}
+		all = append(all, sum.Digests)
+	}
+	bad := 0
+	for k, d := range all[0] {
+		for i := 1; i < len(all); i++ {
+			if all[i][k] != d {
+				fmt.Printf("NONDETERMINISTIC property=%s seed=%d run=%s digests %s vs %s\n", prop, seed, k, d, all[i][k])
+				bad++
+			}
+		}
+	}
+	if bad > 0 || len(all[0]) != len(all[1]) || len(all[0]) != len(all[2]) {
+		return 2
+	}
+	fmt.Printf("selftest: property=%s seed=%d: %d runs x 3 processes (GOMAXPROCS 1/4/16): all trace digests identical\n", prop, seed, len(all[0]))
+	return 0
+}
